@@ -180,6 +180,35 @@ def run(ctx):
         else:
             ctx.violation("C18.R3", "C18.R3/ANCHOR-MISSING/%s/quote" % fps.key, "parse_string no longer scans for the quotation mark", fps.loc())
 
+    # the owned Comment line is built from the accessor that strips the `#` the writer prepends (genuine defect F28: it was built from
+    # the whole line, so a comment came back with its prefix and was re-written as a `##` directive)
+    ncm = 0
+    for k, f in sorted(fb.fns.items()):
+        if not k.startswith(("noodles_gff::", "<noodles_gff::")) or "writer" in k or (f.trait or "").startswith(("core::clone", "core::fmt", "core::cmp", "core::default")):
+            continue
+        for bi, blk in enumerate(f.blocks):
+            if blk.get("cu"):
+                continue
+            for st in blk["s"]:
+                if st[0] == "=" and st[2][0] == "agg" and st[2][1] == "adt" and st[2][2].endswith("line_buf::LineBuf") and st[2][3] == "Comment":
+                    ncm += 1
+                    ctx.saw_fn(f)
+                    via_map = False
+                    if f.is_closure and f.parent in fb.fns:
+                        # `line.as_comment().map(|s| LineBuf::Comment(s.into()))`: the closure is applied to the accessor's result
+                        pf = fb.fns[f.parent]
+                        for pb, pc in pf.calls():
+                            if re.search(r"option::Option::<T>::(map|and_then)$", pc.get("f") or "") and pc["args"] and \
+                                    R.derives_from_call(pf, pc["args"][0], R.mk_pred(r"line::Line::as_comment$")) and f.key.split("::")[-1] in (pc.get("ga") or ""):
+                                via_map = True
+                    if via_map or any(R.derives_from_call(f, o, R.mk_pred(r"line::Line::as_comment$")) for o in st[2][4]):
+                        ctx.ok("C18.R4", f.root + " :: LineBuf::Comment built from Line::as_comment()", "", f.loc(bi))
+                    else:
+                        ctx.violation("C18.R4", "C18.R4/comment-keeps-prefix/" + f.root,
+                                      "%s builds LineBuf::Comment from something other than Line::as_comment(): the leading `#`, which the writer "
+                                      "prepends itself, stays in the text and the comment is re-written as a `##` directive" % f.root, f.loc(bi))
+    ctx.floor("C18.R4", "reader sites constructing LineBuf::Comment (sync + async)", ncm, 2)
+
     ctx.rule("C18.R5", "A10 append-buffer discipline: GFF/GTF line readers reset the line buffer before every appended line (incl. the blank-line skip loop)")
     a10.discipline_rule(ctx, "C18.R5", r"^<?noodles_(gff|gtf)::", 6)
 
